@@ -620,7 +620,7 @@ pub fn judge(world: &World) -> Judgement {
             .iter()
             .map(|s| ExpListed {
                 file: s.file.clone(),
-                name: s.layout.name_display().to_string(),
+                name: s.layout.attr("name").unwrap_or("").to_string(),
                 line: s.layout.start_line,
                 attrs: s.layout.attrs.iter().cloned().collect(),
                 is_content_modified: s.content_modified,
